@@ -331,7 +331,9 @@ def batch_kernels(ctx, progs):
         for sizes in sizesets:
             inp = concrete_inputs(phs, sizes, nprng)
             runs.append((sizes, inp))
-        jobs.append(cexec.Job(tag=f"sym{pi}", expr=expr, runs=[dict(inp, **sz) for sz, inp in runs]))
+        from .c01 import _prep_dedup
+        jobs.append(cexec.Job(tag=f"sym{pi}", expr=expr, runs=[dict(inp, **sz) for sz, inp in runs],
+                              prep=_prep_dedup))
     results = cexec.run_jobs(ctx, jobs)
     cases = dis = 0
     for (pi, expr, phs), job, res in zip(progs[:lim], jobs, results):
